@@ -194,7 +194,10 @@ class ObjArray(np.ndarray):
         except TypeError:
             kind = '?'
         if kind == 'f':
-            return self
+            # values stay terms; the element type the real array would now have is recorded (a view, the source keeps its own)
+            out = self.view(ObjArray)
+            out._src_dtype = np.dtype(dtype).name
+            return out
         return np.asarray(self).astype(dtype, *a, **k)
 
 
